@@ -110,8 +110,8 @@ def packed_unit(ctx, unit, var):
     if unit == "pus-tc":
         p = PusTc(ctx.int("svc", 0, 255), ctx.int("sub", 0, 255), ctx.int("apid", 0, 2047), ctx.octets("data", var), ctx.int("sc", 0, 16383),
                   ctx.int("src", 0, 65535), ctx.int("ack", 0, 15)).pack()
-        return p, PusTc.unpack, lambda u: [lst(u.pack()), lst(u.app_data), u.packet_len, u.apid, u.seq_count, u.service, u.subservice, u.source_id], \
-            lambda u: u.packet_len
+        return p, PusTc.unpack, lambda u: [lst(u.crc16), lst(u.pack(recalc_crc=False)), lst(u.pack()), lst(u.app_data), u.packet_len, u.apid,
+                                            u.seq_count, u.service, u.subservice, u.source_id], lambda u: u.packet_len
     if unit in ("pus-tm", "srv17-tm"):
         t, n = var
         cls = PusTm if unit == "pus-tm" else Service17Tm
@@ -120,7 +120,9 @@ def packed_unit(ctx, unit, var):
             p = PusTm(service=ctx.int("svc", 0, 255), message_counter=ctx.int("mc", 0, 65535), seq_count=ctx.int("sc", 0, 16383), **args).pack()
         else:
             p = Service17Tm(ssc=ctx.int("sc", 0, 16383), **args).pack()
-        return p, (lambda d: cls.unpack(d, t)), lambda u: [lst(u.pack()), lst(u.source_data if unit != "pus-tm" else u.tm_data), lst(u.timestamp),
+        inner = (lambda u: u) if unit == "pus-tm" else (lambda u: u.pus_tm)
+        return p, (lambda d: cls.unpack(d, t)), lambda u: [lst(inner(u).crc16), lst(inner(u).pack(recalc_crc=False)), lst(u.pack()),
+                                                           lst(u.source_data if unit != "pus-tm" else u.tm_data), lst(u.timestamp),
                                                            u.service, u.subservice], lambda u: len(u.pack())
     if unit == "srv1-tm":
         sub, nd = var
@@ -129,7 +131,7 @@ def packed_unit(ctx, unit, var):
         fn = FailureNotice(PacketFieldEnum.with_byte_size(2, ctx.int("code", 0, 65535)), ctx.octets("fdata", nd)) if sub % 2 == 0 else None
         p = Service1Tm(ctx.int("apid", 0, 2047), sub, ctx.octets("ts", 0), VerificationParams(req, step, fn)).pack()
         return p, (lambda d: Service1Tm.unpack(d, UnpackParams(0, 1, 2))), lambda u: [
-            lst(u.pack()), lst(u.tc_req_id.pack()), None if u.step_id is None else u.step_id.val,
+            lst(u.pus_tm.crc16), lst(u.pus_tm.pack(recalc_crc=False)), lst(u.pack()), lst(u.tc_req_id.pack()), None if u.step_id is None else u.step_id.val,
             None if u.failure_notice is None else [u.failure_notice.code.val, lst(u.failure_notice.data)]], lambda u: len(u.pack())
     dec, fields, rlen = UNITS[unit]
     if unit == "sp-header":
